@@ -99,6 +99,8 @@ pub struct Shadow {
     pub single_mutator: bool,
     pub gc_kinds: HashMap<String, u64>,
     pub dead_probe: Vec<(u64, usize, usize)>, // (id, ref addr, size) of objects that died at the last exact GC
+    /// start addresses of objects that were found dead at some pause (bounded; C02 evidence of reuse)
+    pub dead_starts: HashSet<usize>,
 }
 
 impl Shadow {
@@ -122,6 +124,7 @@ impl Shadow {
             single_mutator: mutators <= 1,
             gc_kinds: HashMap::new(),
             dead_probe: vec![],
+            dead_starts: HashSet::new(),
         }
     }
 
@@ -539,7 +542,11 @@ pub fn on_pause_end() {
             let e = s + o.size as usize;
             sh.by_addr.insert(s, (e, id));
         } else {
-            sh.objs.remove(&id);
+            if let Some(o) = sh.objs.remove(&id) {
+                if sh.dead_starts.len() < 200_000 {
+                    sh.dead_starts.insert(start_of(o.addr));
+                }
+            }
         }
     }
     sh.epoch += 1;
@@ -568,6 +575,9 @@ pub fn on_pause_end() {
     with_report("C04", |r| {
         r.count("immortal_dead_checked", immortal_checked);
         r.count("pauses", 1);
+        r.count("moves_checked_against_semantics", moves.len() as u64);
+        r.evaluations += immortal_checked + moves.len() as u64;
+        r.key(mix(0xC04, mix(kindkey, mix(immortal_checked.next_power_of_two(), (moves.len() as u64).next_power_of_two()))));
     });
     with_report("C05", |r| {
         r.count("remset_only_verified", remset_verified);
